@@ -163,16 +163,20 @@ def overlaps_at_least(range1, range2, delta=0):
     d = delta - 1
     if range1[1] < range2[1]:
         return ovlp1 >= d or range1[0] >= range2[0]
-    else:
+    elif range1[1] > range2[1]:
         return ovlp2 >= d or range1[0] <= range2[0]
+    # equal ends: one of the ranges contains the other
+    return True
 
 
 # dangerous function, works only when range1 and range2 are already known to overlap, do not use if unsure
 def overlaps_at_least_when_overlap(range1, range2, delta=0):
     if range1[1] < range2[1]:
         return range1[0] >= range2[0] or range1[1] - range2[0] + 1 >= delta
-    else:
+    elif range1[1] > range2[1]:
         return range1[0] <= range2[0] or range2[1] - range1[0] + 1 >= delta
+    # equal ends: one of the ranges contains the other
+    return True
 
 
 def intersection_len(range1, range2):
